@@ -25,6 +25,11 @@ PROP = {
         "GunYu.Props.C04.readBytes_alloc_bounded",
         "GunYu.Props.C04.readBytes_ok",
         "GunYu.Props.C04.alloc_bounded_partial",
+        "GunYu.Props.C04.readBytes_requests_bounded",
+        "GunYu.Props.C04.lzfAlloc32_bounded",
+        "GunYu.Props.C04.bodyChan_agrees",
+        "GunYu.Props.C04.chanFeed_is_feed",
+        "GunYu.Props.C04.recorded_only_if_parsed_and_applied_chan",
     ],
     "expected_facts": {},
     "harness": [
@@ -77,8 +82,11 @@ PROP = {
             "the cluster target (per-connection log of the double, a queued SCRIPT LOAD counts when its EXEC was executed); "
             "(3b) a list of 260 elements (expansion = 260 pipelined commands, flushed every 100): error reply / persistent failure / "
             "dropped connection / failure inside EXEC at the edges and inside of every batch plus seed-chosen positions. "
-            "(3c) the real ReadBytes(n) over a source of `avail` bytes (n up to 2^62, avail 0 .. 64 MiB+5) and the real LZF string "
-            "reader (outlen vs compressed length) in the worker child against Model/RdbAlloc (ops c04alloc, c04lzf). "
+            "(1c) channel transcripts: op c04chan, see partial. (2b) third stream file (entry with its own field list, consumer "
+            "group, pending entry, consumer). (3c) the real ReadBytes(n) over a source of `avail` bytes (n up to 2^62, also "
+            "100 MiB .. 4 GiB over <= 100 bytes) and the real LZF string reader (declared length vs compressed bytes, incl. 2^32-1 "
+            "over 16.3 MB in a fresh worker) in the worker child: ok/err + length on success against Model/RdbAlloc (op c04alloc), "
+            "len / cap / allocated bytes against the property's bounds (monitor alloc-unbounded). "
             "distinct_nontrivial = distinct (file, position) alteration rows + distinct fan-out scenario points",
     "trusted": [
         "RDB framing (opcodes, length forms, string forms, per-type value layout) as transcribed in Model/RdbFrame.lean and as "
@@ -107,19 +115,35 @@ PROP = {
         "silently, ignoring the commands behind the preamble - accepted, not a supported input",
     ],
     "partial": [
-        "memory / wall-clock on damaged input: proved (alloc_bounded_partial, Model/RdbAlloc.lean) that each of the three buffers "
-        "pkg/rdb sizes by a field of the input - ReadBytes (D22), lzfDecompress' output, the stream master entry's field array (D32) - "
-        "is bounded by a linear function of the bytes actually present (+ one 64 MiB step), whatever the field says; tied by ops "
-        "c04alloc / c04lzf (the real ReadBytes / string reader in the worker child vs the model: returned length, ok/err, "
-        "refused/allocated). NOT proved: that these are ALL input-sized allocations of parser and decoders (found by review and "
-        "by the damaged-input sweep), the allocator's rounding, memory held by the pipeline across entries, and wall-clock time: "
-        "parse_total bounds the steps of the frame MODEL by the input length, a value decoder's loop that does not advance (D23) "
-        "is outside it - child processes with an address-space limit and watchdogs carry that part",
+        "memory / wall-clock on damaged input: proved (alloc_bounded_partial, Model/RdbAlloc.lean): ReadBytes (D22) returns at most "
+        "avail + step bytes (readBytes_alloc_bounded) and - under the stated assumption on Go's append (GrowOK: a re-allocation at "
+        "most doubles) - no single request it makes of the allocator (initial capacity, chunk, re-allocation) exceeds 2 x (avail + "
+        "step) (readBytes_requests_bounded); the stream master entry's field array (D32) is bounded by the listpack's bytes; the "
+        "LZF guard admits a declared length up to min(264 x compressed bytes, 2^32 - 1) (lzfAlloc32_bounded) - which let 16.3 MB "
+        "of input ask for 4 GiB in one piece: D33, fixed f4eb5a7: the output buffer now follows the bytes really produced, one step "
+        "ahead (not modelled in Lean; section 3c measures it). Tie (3c, worker child): ok/err and the length on success vs the model; "
+        "MONITORS on the real readers: len <= avail + step, cap <= 2 x (avail + step), bytes allocated (runtime.MemStats.TotalAlloc) "
+        "<= 8 x (avail + step) + 16 MiB, LZF: bytes allocated <= 1024 x compressed bytes + 8 MiB, incl. lengths between one step "
+        "and 4 GiB over a nearly empty source (a regression there does not kill the child). NOT proved / not modelled: that these "
+        "are ALL input-sized allocations - by grep they are the only make() sized by a field, but ReadBytesP(n) is unguarded (its "
+        "three callers pass constants), and the decoder's loops driven by UNGUARDED counts (entry-num-fields: 2 slots appended per "
+        "element; PEL sizes: two map insertions per 25 input bytes) end only because the next read fails at the end of the bytes - "
+        "linear in the bytes present, swept by the stream3 file (own-fields entry, group, PEL, consumer), not proved; the "
+        "bytes.Buffer behind every tee'd reader and the copies held per in-flight entry x RdbPipeSize (memory of the pipeline); the "
+        "allocator's rounding; wall-clock time: parse_total bounds the steps of the frame MODEL by the input length, a value "
+        "decoder's loop that does not advance (D23) is outside it - child processes with an address-space limit and watchdogs carry that part",
         "real goroutine interleavings are explored by synctest schedules and repeated runs, not exhaustively",
-        "Part 2 -> Part 1 is now a theorem (recorded_only_if_parsed_and_applied, truncated_never_recorded, "
-        "altered_never_recorded: from the BYTES of the input to 'no schedule writes the checkpoint'); what it rests on is `feed` - "
-        "ParseRdb's goroutine sends one entry per parsed entry and then Err or Done - a four-line transcription of rdb.go's loop, "
-        "exercised by the sweep, not proved of the Go code",
+        "Part 2 -> Part 1 is a theorem (recorded_only_if_parsed_and_applied[_chan], truncated_never_recorded, altered_never_recorded); "
+        "it rests on the transcript model of ParseRdb's goroutine (Model/RdbFeed.lean: Err / Done / after a footer error Err AND "
+        "THEN Done - rdb.go falls through; chanFeed_is_feed: an instance of `feed`, so never recorded), which is now TIED: op c04chan "
+        "compares the whole channel transcript of the real ParseRdb (entries before the first terminal, every terminal in order, "
+        "closed) with the model on the intact files, cuts, every altered footer / EOF-opcode byte and bytes appended behind the footer "
+        "(Err-then-Done observed on the real code, monitors 'parser-no-terminal' and 'anything after Done'). How much of real "
+        "snapshots the theorem speaks about: in its decidable instance (RdbFrame.item) only snapshots WITHOUT LZF strings, streams, "
+        "modules and text-float sorted sets (chanWith = none for them; with rdbcompression on, every compressible string of >= 20 "
+        "bytes is LZF, so that excludes most production snapshots); for those the generic-reader statement applies, whose "
+        "hypothesis GoodItem of the real Loader.Next is trusted (listed) - the damaged-input sweeps of 2b/2c (streams, LZF, "
+        "fixtures) are what covers them",
         "alteration_is_error_gen is instantiated for the modelled grammar with 'outside the model' read as an error (itemT); for the "
         "real Loader.Next GoodItem / Total are trusted",
     ],
@@ -139,7 +163,7 @@ MANIFEST = {
             "(4, partial) the three buffers pkg/rdb sizes by an input field are bounded by the bytes actually present. Tie: exhaustive truncation/XOR sweep of small files "
             "through the real parser (vs model) and the real SendRdb against the target double with fault injection, cancellation at "
             "every request and the hold-cancel-release schedule under synctest; independent Go monitor of the property.",
-    "note": "trusted: Lean kernel, RDB framing transcription, target double, synctest; models of the REPAIRED code (D6, D19 fixed; D22, D23, D26, D32 are crash/hang repairs outside the models)",
+    "note": "trusted: Lean kernel, RDB framing transcription, target double, synctest; models of the REPAIRED code (D6, D19 fixed; D22, D23, D26, D32, D33 are crash/hang repairs outside the models)",
     "technique": "Lean 4 proof (12-clause inductive invariant over an event system; sequential-reader combinator lemmas) + exhaustive "
                  "small-scope differential correspondence + fault/cancellation schedule exploration + monitor",
 }
